@@ -308,6 +308,10 @@ def install(I, poll_budget=1):
         cell, path = unpin(I, st, args[0])
         return poll_at(I, st, cell, path, args[1], fr, f)
 
+    @M(r'^tokio::task::yield_now$|(^|::)task::yield_now$', 'tokio::task::yield_now (Pending once, then Ready)')
+    def m_yield_now(I, st, f, args, fr):
+        return I.ret(st, Agg('YieldNow', (fresh_id(),)))
+
     @M(r'FutureExt>::now_or_never$|(^|::)FutureExt::now_or_never(::<.*>)?$', 'FutureExt::now_or_never (one poll with a no-op waker)')
     def m_now_or_never(I, st, f, args, fr):
         v = args[0]
@@ -374,6 +378,14 @@ def install(I, poll_budget=1):
                 else:
                     outs.append(o)
             return outs
+        if isinstance(v, Agg) and v.ty == 'YieldNow':
+            # tokio::task::yield_now: Pending once (the task goes to the back of the run queue), then Ready
+            key = ('yielded', v.fields[0])
+            if st.ghost.get(key):
+                return [Outcome(st, 'ret', ready(UNIT))]
+            st.ghost[key] = True
+            st.emit('YIELD')
+            return [Outcome(st, 'ret', PENDING)]
         if isinstance(v, Agg) and v.ty in ('Sleep', 'Timeout', 'JoinHandle', 'Interval'):
             h = I.hooks.get('poll_' + v.ty.lower())
             if h:
